@@ -2,7 +2,7 @@ from functools import reduce
 from numpy import arange, array, ndarray, atleast_1d, zeros
 from numpy import sort, linspace, searchsorted, argsort, argmax, unique
 from numpy import sqrt, pi, log, exp, std, logaddexp, cov
-from numpy.random import random
+from numpy.random import default_rng
 from scipy.integrate import simpson
 from scipy.optimize import minimize_scalar
 from scipy.special import erf
@@ -146,7 +146,10 @@ class GaussianKDE(DensityEstimator):
         """
         # first check if we need to sub-sample for computational cost reduction
         if len(self.sample) > self.max_cvs:
-            scrambler = argsort(random(size=len(self.sample)))
+            # (a generator with a fixed seed, so that the sub-set - and with it the
+            # bandwidth - is a function of the data alone rather than of the state
+            # of the global random-number generator)
+            scrambler = argsort(default_rng(0).random(size=len(self.sample)))
             samples = (self.sample[scrambler])[: self.max_cvs]
         else:
             samples = self.sample
